@@ -99,3 +99,29 @@ Theorem C08_float32_specials_exact :
   f32_of_sf64 S754_nan = Ok nan32.
 Proof. exact f32_exact_special. Qed.
 Print Assumptions C08_float32_specials_exact.
+
+(* Spiral saturation and NaN.  With NaN for angle, r0 and rF (protocol version >= 8) every comparison of the saturation
+   is false: the specification tree sends the arguments unchanged, the documented meaning is the unchanged arguments,
+   and a NaN argument is transmitted as NaN (the float field decodes to the caller's argument). *)
+Theorem C08_spiral_nan_passes_through : forall cf en,
+  8 <= c_ver cf ->
+  nth_error (e_args en) 0 = Some nan_arg -> nth_error (e_args en) 1 = Some nan_arg ->
+  nth_error (e_args en) 2 = Some nan_arg ->
+  run (fw_action CHlSpiral) cf en = emit en 8 0 [k8 11; a8 7; a8 5; a8 6; a32 0; a32 1; a32 2; a32 3; a32 4] false /\
+  run_api (api_action CHlSpiral) cf en =
+    match vals en [a8 7; a8 5; a8 6; a32 0; a32 1; a32 2; a32 3; a32 4] with Ok ws => Some ws | Raise _ => None end /\
+  to_wire (KS F32) nan_arg = Ok nan32.
+Proof. exact spiral_nan_passes_through. Qed.
+Print Assumptions C08_spiral_nan_passes_through.
+
+(* The comparison-based saturation of the source keeps NaN; a saturation max(lower, min(upper, value)) with Python's
+   min/max (first argument wins when the comparison is false) is refuted: NaN becomes +2*pi (0x40c90fdb on the wire),
+   and NaN with limits [0, inf) becomes +inf. *)
+Theorem C08_saturation_on_nan_refutes_minmax :
+  saturate_cmp nan_arg pf_minus_two_pi pf_two_pi = Ok nan_arg /\
+  saturate_minmax nan_arg pf_minus_two_pi pf_two_pi = Ok pf_two_pi /\
+  bind (saturate_cmp nan_arg pf_minus_two_pi pf_two_pi) (to_wire (KS F32)) = Ok nan32 /\
+  bind (saturate_minmax nan_arg pf_minus_two_pi pf_two_pi) (to_wire (KS F32)) = Ok 1086918619 /\
+  saturate_minmax nan_arg (PFloat (S754_zero false)) (PFloat (S754_infinity false)) = Ok (PFloat (S754_infinity false)).
+Proof. exact saturation_on_nan. Qed.
+Print Assumptions C08_saturation_on_nan_refutes_minmax.
